@@ -240,6 +240,8 @@ def check_constructed(res, mtype, kw, exp, seen_serials):
         return
     # (c') a parsed message serialised again (what the bus does when it
     # stamps the sender) is the same well-formed message, serial kept
+    if not hasattr(m, '_marshal'):
+        return          # (private entry point renamed: nothing to drive)
     res.count('transitions')
     try:
         m.sender = ':1.77'
